@@ -2,6 +2,7 @@ package cmd
 
 import (
 	"bufio"
+	"cmp"
 	"fmt"
 	"os"
 	"slices"
@@ -666,10 +667,43 @@ func PrintAllTypes() {
 	}
 }
 
+func compareClassNode(a, b base.ClassNode) int {
+	if c := cmp.Compare(a.Frame, b.Frame); c != 0 {
+		return c
+	}
+	if c := cmp.Compare(a.Class, b.Class); c != 0 {
+		return c
+	}
+	if a.IsInclude != b.IsInclude {
+		if !a.IsInclude {
+			return -1
+		}
+		return 1
+	}
+	if a.IsExtend != b.IsExtend {
+		if !a.IsExtend {
+			return -1
+		}
+		return 1
+	}
+	return 0
+}
+
 func PrintTargetClassExtends() {
 	className := getTargetClass()
 
-	for classNode, parents := range base.ClassInheritanceMap {
+	// several frames may declare a class of that name: pick the node in a fixed order,
+	// not in map iteration order
+	classNodes := make([]base.ClassNode, 0, len(base.ClassInheritanceMap))
+	for classNode := range base.ClassInheritanceMap {
+		classNodes = append(classNodes, classNode)
+	}
+
+	slices.SortFunc(classNodes, compareClassNode)
+
+	for _, classNode := range classNodes {
+		parents := base.ClassInheritanceMap[classNode]
+
 		if classNode.Class == className {
 			for _, parent := range parents {
 				switch parent.Class {
